@@ -29,6 +29,12 @@ UdpHistories ==
   { <<Q(1), [op |-> "reply", tx |-> "name:n1.", kind |-> "tc"], Drain, [op |-> "reply", tx |-> "name:n1.", kind |-> "ok"], Drain>>,
     <<Q(1), [op |-> "reply", tx |-> "name:n1.", kind |-> "empty"], [op |-> "reply", tx |-> "name:n1.", kind |-> "ok"]>>,
     <<Q(1), [op |-> "reply", tx |-> "name:n1.", kind |-> "empty", deliver |-> 0], [op |-> "reply", tx |-> "name:n1.", kind |-> "ok"]>>,
+    \* the truncated answer arrives on the last attempt the retry budget allows
+    <<Q(1), [op |-> "adv", to |-> "deadline"], [op |-> "process"], [op |-> "reply", tx |-> "name:n1.", kind |-> "tc"], Drain,
+      [op |-> "reply", tx |-> "name:n1.", kind |-> "ok"], Drain>>,
+    \* empty datagrams around real answers in one batch
+    <<Q(1), Q(2), [op |-> "reply", tx |-> "name:n1.", kind |-> "empty", deliver |-> 0], [op |-> "reply", tx |-> "name:n1.", kind |-> "ok", deliver |-> 0],
+      [op |-> "reply", tx |-> "name:n2.", kind |-> "empty", deliver |-> 0], [op |-> "reply", tx |-> "name:n2.", kind |-> "ok"]>>,
     <<Q(1), Q(2), [op |-> "reply", tx |-> "name:n1.", kind |-> "tc"], [op |-> "reply", tx |-> "name:n2.", kind |-> "ok"], Drain,
       [op |-> "reply", tx |-> "name:n1.", kind |-> "ok"], Drain>> }
 
